@@ -35,7 +35,7 @@ claim('C07', 'other',
       "payloadSet and placement-copy their payload parameter; no user-declared copy operations, so copies are memberwise; "
       "payload() returns the storage iff payloadSet; the whole-object copy chain request -> pending -> current -> previous "
       "as must-equalities (flow clause). Equality of payload bytes for every value is NOT decided (language-level "
-      "memberwise copy is trusted).",
+      "memberwise copy is trusted). Every request writer replaces the whole request object, so no payload flag or bytes of an earlier request survive in the slot (C07.f).",
       "Trusted: clang's record layout for the x86-64 target of this sandbox; witness w_pay as the family of payload types.",
       "type-level layout facts + evaluated constructors (delegation, placement-new) + must-equality dataflow + comparison-domain evaluation of the drop predicate",
       "DESIGN.md section 4 C07")
@@ -75,7 +75,7 @@ claim('C01', 'other',
       "automaton) of every entry point that can reach a dispatcher (update, react, immediate*, replay*, load, enter/exit, "
       "constructors, destructor; both activation modes; all witness machines) shows enter/exit/reenter pairing, root before/"
       "after, dispatch only to the active state and the activity invariant at return; who-may-call and who-may-write rules "
-      "close the induction; no control flavour can write the registry.",
+      "close the induction; no control flavour can write the registry. The load rule's precondition (the index read was written by save()) is discharged by the save/load field-table and clear-before-write obligations (C01.f).",
       "Assumes A1-A3 (callbacks act only through their control, do not re-enter the API, preconditions respected). Machine "
       "size is abstracted by the dispatch primitive, whose correctness for every size is C14.",
       "finite-domain abstract interpretation (typestate) + call-graph / effect-set rules",
@@ -86,7 +86,7 @@ claim('C02', 'other',
       "request only in the guarded loops. Order rules: processing last. Must-equality dataflow through processRequest / "
       "initialEnter: the state entered/re-entered is the destination of the transition shown to enter() as current, which is a "
       "whole copy of the pending transition of a round whose guards did not cancel; nothing survives => no callback, same active "
-      "state; requested is invalid at return. Comparison-domain evaluation of the de-duplication test.",
+      "state; requested is invalid at return. Comparison-domain evaluation of the de-duplication test. Only the four request writers and request processing write the request slot (C02.g); each writer replaces the whole request through the assignment operator of the request's own type.",
       "Assumes A1-A3; guards are unknown booleans, callbacks havoc exactly the computed effect set of their control flavour.",
       "effect sets + CFG order rules + must-equality abstract interpretation + comparison-domain evaluation of the branch conditions that control a guard round (located by control dependence)",
       "DESIGN.md section 4 C02")
@@ -163,9 +163,11 @@ claim('C09', 'other',
       "Control-dependence rules: planFailed only on the FAILURE edge, planSucceeded only on (not FAILURE, SUCCESS, plan empty), no "
       "firing in the failure branch, plan cleared after each callback (all tasks, both status bits of every state); the plan step "
       "is gated by planExists whose only writers are append (true) and clear (false); definite initialisation of every scalar "
-      "member makes the outcome independent of the memory the instance is built in; failure priority table.",
+      "member makes the outcome independent of the memory the instance is built in; failure priority table; the per-cycle status "
+      "accumulators are reset on every path after the plan step; PlanDataT::clear(), deactivation and load definitely reset the whole "
+      "plan state (no task, report or plan-exists flag survives).",
       "Assumes A1-A3.",
-      "CFG control-dependence rules + who-may-call + definite-initialisation rule",
+      "CFG control-dependence rules + who-may-call + definite-initialisation rule + must-write analysis (whole-array loops write every element)",
       "DESIGN.md section 4 C09")
 
 claim('C10', 'other',
@@ -185,7 +187,7 @@ claim('C12', 'other',
       "Writer/reader field tables extracted from the CFGs of save()/load() agree per activation mode; only the activity bit and "
       "registry.active are written, into a buffer cleared first; type-level capacity facts for every N in 1..255 (thorough) / 31 "
       "sizes (quick); save() const and effect-free on the machine; load() interpreted abstractly for active and inactive loaders: "
-      "exactly the C01 transitions, entering the state read, no guards.",
+      "exactly the C01 transitions, entering the state read, no guards. Loading into an active machine is observable as exit+enter / reenter / initial enter and leaves no request of the loader outstanding; stream buffers own ceil(N/8) bytes for every N <= 255 (type-level).",
       "Assumes the buffer passed to load() was produced by save() of the same machine type (A3).",
       "CFG path tables + static_assert obligations + abstract interpretation + effect sets",
       "DESIGN.md section 4 C12")
@@ -217,7 +219,7 @@ claim('C18', 'other',
       "Allocation-freedom from the AST (placement new only, no delete, allowed externals) cross-checked on the undefined symbols "
       "of compiled witness objects; payload/member alignment from the record layout; definite initialisation; constant or locally "
       "bounded shift amounts; positive extents; reinterpret_cast only on payload storage; interval reasoning on locally guarded "
-      "subscripts. Absence of out-of-bounds accesses for all histories is NOT decided (unguarded subscripts are counted as 'no verdict').",
+      "subscripts. Absence of out-of-bounds accesses for all histories is NOT decided (unguarded subscripts are counted as 'no verdict'). The byte storage behind every bit container has ceil(N/8) bytes for every N <= 255 (exhaustive type-level unit).",
       "Residue: value ranges of indices kept by data-structure invariants.",
       "AST effect rules + object symbol table + record layout + local interval analysis",
       "DESIGN.md section 4 C18")
